@@ -6,7 +6,7 @@ import random
 import traceback
 
 from . import upj, simobs
-from .common import time_limit, ImplTimeout
+from .common import time_limit, ImplTimeout, call_limited
 from .gen import ground_actions
 
 COMPILERS = {
@@ -85,9 +85,7 @@ def compile_one(cid, P, cname, fresh_env=False):
         rec["skip"] = "kind:" + type(ex).__name__
         return rec
     try:
-        with time_limit(60):
-            comp = C()
-            res = comp.compile(problem, ckind)
+        res = call_limited(lambda: C().compile(problem, ckind), 40, 8)
     except ImplTimeout:
         rec["raised"] = "TIMEOUT"
         return rec
@@ -170,9 +168,11 @@ def compile_pipeline(cid, P, cnames):
         rec["skip"] = "build:" + type(ex).__name__
         return rec
     try:
-        with time_limit(120):
+        def _run():
             with comp:
-                res = comp.compile(problem)
+                return comp.compile(problem)
+
+        res = call_limited(_run, 60, 6)
         rec["stages"] = comp.name
         q = res.problem
         rec["qkind"] = sorted(q.kind.features)
